@@ -16,8 +16,13 @@
        policy object, no merge); c08_wf_refuted_without_it : without it the faithful model loses the
        invariant (witness add_static s; link s->n; remove_static s — replays on ast::PolicySet, and
        through PolicySet::from_json_value on the public API, see notes/C08.md).
+     c08_link_subst_partial : for every request, store, template, binding and link id, evaluating the
+       linked policy (slot environment of Eval.v) = evaluating the static policy obtained by writing the
+       bound entity in place of each slot (subst_slots); unbound slots give ErrUnlinkedSlot on both sides.
+       `_partial`: the hypothesis body_closed (the when/unless body evaluates independently of the slot
+       environment — the parser rejects slots there) is semantic, not derived from a syntactic check.
    NOT proved: refinement to the abstract map as a separate statement, merge properties. *)
-From Cedar Require Import PolicySet PolicySetProofs PolicySetWF.
+From Cedar Require Import PolicySet PolicySetProofs PolicySetWF PolicySetSubst.
 
 Theorem c08_fail_noop_api : forall h o h' e r, api_step h o = (h', (OErr e, r)) -> h' = h.
 Proof. exact api_step_fail_noop. Qed.
@@ -65,6 +70,12 @@ Theorem c08_wf_refuted_without_it :
 Proof. exists wit_ops. exact core_WF_refuted. Qed.
 Print Assumptions c08_wf_refuted_without_it.
 
+Theorem c08_link_subst_partial : forall q es t env i,
+  body_closed q es t ->
+  eval_policy q es (mkPolicy t (Some i) env) = eval_policy q es (static_of (subst_slots env t)).
+Proof. exact link_subst. Qed.
+Print Assumptions c08_link_subst_partial.
+
 (* consequences of the invariant, in the property's words *)
 Theorem c08_no_shared_id : forall s i p t, WF s ->
   alookup i (ps_links s) = Some p -> alookup i (ps_templates s) = Some t -> plink p = None /\ t = ptemplate p.
@@ -92,6 +103,8 @@ Proof. eexists. split; vm_compute; reflexivity. Qed.
 Example ex_history : Hinv (run_ops api_step
   [OpAddTemplate ex_t; OpLink [116%N] [108%N] [(SlotPrincipal, ex_u)]; OpUnlink [108%N]; OpRemoveTemplate [116%N]] empty_h).
 Proof. apply c08_history_partial. repeat constructor. Qed.
+Example ex_body_closed : forall q es, body_closed q es ex_t.
+Proof. intros q es sl e H. discriminate H. Qed.
 Example ex_fail_noop :
   api_step empty_h (OpUnlink [120%N]) = (empty_h, (OErr ELinkNonexistent, [])).
 Proof. vm_compute. reflexivity. Qed.
